@@ -1,6 +1,6 @@
 """SKEL drivers: enumerate structural parameter boxes for the functions named in DESIGN section 4 (bounded, labelled [SKEL])."""
 import itertools
-from .skel import (explore, SK, Py, Bag, Tok, DEF, Ord, Violation, Unsupported, Tally, run_case, pts, floats, shape_ok, STD_ABSTRACTED)
+from .skel import (explore, SK, Py, Bag, Tok, DEF, Ord, Violation, Unsupported, Tally, run_case, pts, floats, shape_ok, STD_ABSTRACTED, footprint)
 from .model import AnalysisError
 
 
@@ -18,7 +18,7 @@ def datadict(pdim, degs, sizes, dim, rational=False, samples=3):
     total = 1
     for s in sizes:
         total *= s
-    return dict(degree=tuple(degs), knotvector=tuple(floats(n + p + 1) for p, n in zip(degs, sizes)), control_points=tuple(pts(total, hd)),
+    return dict(degree=tuple(degs), knotvector=tuple(floats(n + p + 1) for p, n in zip(degs, sizes)), control_points=tuple(pts(total, hd, labelled=True)),
                 size=tuple(sizes), dimension=dim, rational=rational, pdimension=pdim, sample_size=tuple([samples] * pdim), precision=18,
                 delta=tuple([0.1] * pdim), type='spline')
 
@@ -57,9 +57,15 @@ def c01(m, run):
             for n in range(p + 1, p + 4):
                 dd = datadict(1, (p,), (n,), 2, rat)
 
-                def post(sk, out, rat=rat):
+                def post(sk, out, rat=rat, p=p, n=n):
                     if len(out) != 3 or not all(shape_ok(q, 2) for q in out):
                         raise Violation('SK3', 'evaluated points are not 3 defined 2-D points: %r' % (out[:1],))
+                    spans = list(range(p, n))
+                    for k, q in enumerate(out):
+                        sp = spans[k % len(spans)]
+                        got, want = footprint(q), frozenset(range(sp - p, sp + 1))
+                        if got is not None and got != want:
+                            raise Violation('SK5', 'the point evaluated in span %d is computed from the control points %s, the active ones are %s' % (sp, sorted(got), sorted(want)))
                 t.add((p, n), run1(m, 'evaluators.%s.evaluate' % cls, [evaluator(cls, range(p, n)), dd], {}, post))
         finish(t, 'geomdl/evaluators.py')
     # A3.5 surface points
@@ -77,7 +83,15 @@ def c01(m, run):
                 sup = [p + (i % (n - p)) for i in range(2)] + [q + (i % (k - q)) for i in range(2)]
                 # exercise the extreme spans too
                 for su, sv in ((p, q), (n - 1, k - 1)):
-                    t.add((p, q, n, k, su, sv), run1(m, 'evaluators.%s.evaluate' % cls, [evaluator(cls, [su, su, sv, sv]), dd], {}, post))
+                    def post2(sk, out, su=su, sv=sv, p=p, q=q, k=k, post=post):
+                        post(sk, out)
+                        want = frozenset(v + k * u for u in range(su - p, su + 1) for v in range(sv - q, sv + 1))
+                        for pt in out:
+                            got = footprint(pt)
+                            if got is not None and got != want:
+                                raise Violation('SK5', 'a point of span (%d, %d) is computed from the flat control point indices %s, the active block is %s'
+                                                % (su, sv, sorted(got)[:12], sorted(want)[:12]))
+                    t.add((p, q, n, k, su, sv), run1(m, 'evaluators.%s.evaluate' % cls, [evaluator(cls, [su, su, sv, sv]), dd], {}, post2))
         finish(t, 'geomdl/evaluators.py')
     # volume
     t = Tally(run, 'SK1.index-safety', 'evaluators.VolumeEvaluator.evaluate :: A3.5 (3-D) skeleton', 'degrees 1..2^3 x pairwise different sizes x extreme spans')
@@ -89,7 +103,15 @@ def c01(m, run):
             if len(out) != 8 or not all(shape_ok(x, 3) for x in out):
                 raise Violation('SK3', 'evaluated grid is not 2x2x2 defined points')
         for su, sv, sw in ((p, q, r), (n - 1, k - 1, l - 1)):
-            t.add((p, q, r, su, sv, sw), run1(m, 'evaluators.VolumeEvaluator.evaluate', [evaluator('VolumeEvaluator', [su, su, sv, sv, sw, sw]), dd], {}, post))
+            def post3(sk, out, su=su, sv=sv, sw=sw, p=p, q=q, r=r, n=n, k=k, post=post):
+                post(sk, out)
+                want = frozenset(v + k * (u + n * w) for u in range(su - p, su + 1) for v in range(sv - q, sv + 1) for w in range(sw - r, sw + 1))
+                for pt in out:
+                    got = footprint(pt)
+                    if got is not None and got != want:
+                        raise Violation('SK5', 'a point of span (%d, %d, %d) is computed from the flat indices %s, the active block is %s'
+                                        % (su, sv, sw, sorted(got)[:12], sorted(want)[:12]))
+            t.add((p, q, r, su, sv, sw), run1(m, 'evaluators.VolumeEvaluator.evaluate', [evaluator('VolumeEvaluator', [su, su, sv, sv, sw, sw]), dd], {}, post3))
     finish(t, 'geomdl/evaluators.py')
 
 
